@@ -124,6 +124,30 @@ func corrC13(outDir string, seed uint64, tier string, replay string) *report {
 						rep.fail(map[string]interface{}{"scheme": v.name, "password_len": n}, "spare capacity of the result is private", "a later result changed", "returned slice's capacity is aliased")
 					}
 				}
+				// the caller reuses its buffers for other contents of the same lengths: the result must be the one a call
+				// with fresh slices of those contents gets (equal arguments are equal bytes, not equal addresses)
+				if spare == 0 || spare == 3 {
+					altPw := []byte(r.str(n, "abcxyzABC0189\xe9\x80"))
+					altSalt := []byte(r.str(v.saltLen, v.alpha))
+					copy(pw, altPw)
+					copy(salt, altSalt)
+					kReuse, errReuse := call()
+					fa := a
+					fa.pw, fa.salt = append([]byte(nil), altPw...), append([]byte(nil), altSalt...)
+					kFresh, errFresh := keyOf(fa)
+					if !bytes.Equal(kReuse, kFresh) || (errReuse == nil) != (errFresh == nil) {
+						rep.fail(map[string]interface{}{"scheme": v.name, "password_len": n, "first_password": string(pwContent), "first_salt": string(saltContent),
+							"then_in_the_same_buffers_password": string(altPw), "salt": string(altSalt)},
+							fmt.Sprintf("%x %v (fresh slices with the second contents)", kFresh, errFresh), fmt.Sprintf("%x %v", kReuse, errReuse),
+							"Key returns another result when the caller reuses its buffers for new contents (result depends on addresses or on earlier calls)")
+					}
+					copy(pw, pwContent)
+					copy(salt, saltContent)
+					if kBack, _ := call(); !bytes.Equal(kBack, c1) {
+						rep.fail(map[string]interface{}{"scheme": v.name, "password_len": n}, fmt.Sprintf("%x", c1), fmt.Sprintf("%x", kBack), "Key is not deterministic after the buffers were reused and restored")
+					}
+					rep.bump("buffer_reuse")
+				}
 				if v.tag == 2 {
 					var cl []string
 					for _, c := range changed {
@@ -141,6 +165,47 @@ func corrC13(outDir string, seed uint64, tier string, replay string) *report {
 				}
 			}
 		}
+	}
+	// option arguments, including partially filled ones (the call may fail): the struct is never written, and the
+	// outcome (key or error text) is the same on every call
+	type optCase struct {
+		tag    int
+		prefix string
+		num    int64
+		salt   string
+		nums   []int64
+	}
+	var ocs []optCase
+	for _, p := range []string{"", "$argon2id$", "$argon2i$", "$argon2d$", "$argon2$", "$2b$"} {
+		for _, ver := range []int64{0, 0x10, 0x13, 0x14, -1, 0x110, 0x10013} {
+			ocs = append(ocs, optCase{4, p, ver, "c29tZXNhbHRzYWx0", []int64{8, 1, 1}})
+		}
+	}
+	for _, p := range []string{"", "$md5$", "$md5,", "$md5", "$1$"} {
+		for _, d := range []int64{0, 1} {
+			for _, rounds := range []int64{0, 1, 7} {
+				ocs = append(ocs, optCase{8, p, d, "saltsalt", []int64{rounds}})
+			}
+		}
+	}
+	for _, p := range []string{"", "$2$", "$2a$", "$2b$", "$2x$", "$2y$", "$2c$", "$1$"} {
+		ocs = append(ocs, optCase{2, p, 0, "abcdefghijklmnopqrstuu", []int64{4}})
+	}
+	for _, oc := range ocs {
+		a := keyArgs{tag: oc.tag, pw: []byte("password"), salt: []byte(oc.salt), nums: oc.nums, hasOpts: true, prefix: oc.prefix, optNum: oc.num}
+		var first string
+		for rpt := 0; rpt < 3; rpt++ {
+			k, err := keyOf(a)
+			got := fmt.Sprintf("%x|%v", k, err)
+			if rpt == 0 {
+				first = got
+			} else if got != first {
+				rep.fail(map[string]interface{}{"scheme_tag": oc.tag, "options_prefix": oc.prefix, "options_number": oc.num, "call": rpt + 1}, first, got,
+					"the same Key call with the same options returns something else when repeated")
+			}
+		}
+		rep.count(fmt.Sprint("opts", oc), true)
+		rep.bump("option_cases")
 	}
 	// history independence: the same calls again in two other orders (reverse, shuffled) — a result may depend on
 	// nothing but the call's own arguments, in particular not on which calls (other schemes, other option paths)
@@ -168,6 +233,9 @@ func corrC13(outDir string, seed uint64, tier string, replay string) *report {
 			rep.count(fmt.Sprint("hist", pass, i), true)
 			rep.bump("history_replays")
 		}
+	}
+	for _, oc := range optsChanged {
+		rep.fail(oc, "the options argument holds after the call what it held before", oc["after_the_call"], "Key writes into the options struct passed by the caller")
 	}
 	must(cs.flush())
 	rep.CaseSets = []string{"C13_bcrypt"}
